@@ -1641,6 +1641,16 @@ class Interp:
         raise Unsupported("str method %s on %r" % (name, recv))
 
     def list_method(self, recv, name, args):
+        if name in ("sort_by_key", "sort_unstable_by_key", "sort_by_cached_key"):
+            keys = [unref(self.call_value(args[0], [x])) for x in recv]
+            if not all(isinstance(k_, (bool, int, str, float)) for k_ in keys):
+                raise Unsupported("list method %s with a symbolic key" % name)
+            order = sorted(range(len(recv)), key=lambda i_: keys[i_])   # stable, like slice::sort_by_key
+            recv[:] = [recv[i_] for i_ in order]
+            return ()
+        if name in ("sort", "sort_unstable") and all(isinstance(x, (bool, int, str, float)) for x in recv):
+            recv.sort()
+            return ()
         if name == "split_off" and isinstance(args[0], int):
             # Vec::split_off(at): the vector keeps [0, at), the tail is returned
             at_ = args[0]
